@@ -41,7 +41,8 @@
 (*   RangeIn(F, r)                  <<min, max>> of v[r] over the set F    *)
 (*   Range(M, r, X(_))              ... over {v \in Feasible(M) : X(v)}    *)
 (*   RangeUnb(M, r)                 <<min is -inf, max is +inf>>           *)
-(*   ObjAtLeast(M, num, den, opt)   LAMBDA-able objective restriction      *)
+(*   ObjAtLeast(M, num, den, opt, v)  v keeps the objective at or beyond   *)
+(*                                  num/den of opt (use inside a LAMBDA)   *)
 (*   Blocked(M)   Internal(M) Boundary(M)                                  *)
 (*   Cycles(M)  IsLoopless(M, v)  Loopless(M)                              *)
 (*   L1(v)  MinL1In(F)                                                     *)
